@@ -73,6 +73,9 @@ func (r *RecvCase[T]) ready(self *G) bool {
 	if len(c.buf) > 0 || c.closed {
 		return true
 	}
+	if c.cap > 0 {
+		return false // buffered: a pending sender will fill the buffer first
+	}
 	for _, sc := range c.sendq {
 		if sc.g != self {
 			return true
@@ -138,6 +141,9 @@ func (sc *SendCase[T]) ready(self *G) bool {
 	}
 	if c.closed || len(c.buf) < c.cap {
 		return true
+	}
+	if c.cap > 0 {
+		return false // buffered and full: a pending receiver must drain it first
 	}
 	for _, r := range c.recvq {
 		if r.g != self {
